@@ -444,6 +444,59 @@ pub fn bandpanic(_cfg: &Cfg, out: &mut Out<f64>) {
     std::panic::set_hook(prev);
 }
 
+/// homogeneity in the observations at extreme scales (supplementary, native): with y replaced by s*y (s a power of two)
+/// coefficients, residuals and the Jacobian must be s times the unscaled ones -- all three are linear in y and no
+/// threshold of the library applies to them.  Intermediate quantities whose SQUARES leave the floating-point range
+/// (norms) show up here; the real-arithmetic engine cannot see them.
+pub fn scalecore(cfg: &Cfg, out: &mut Out<f64>) {
+    let (n, p) = (cfg.usize("n", 6), cfg.usize("p", 2));
+    for mrhs in [false, true] {
+        for weighted in [false, true] {
+            let run = |scale: f64| -> Option<(DMatrix<f64>, DVector<f64>, DMatrix<f64>)> {
+                let (x, y, start) = data(n, p);
+                let model = PlainModel { x, alpha: start, poison: None };
+                let w = DVector::from_fn(n, |i, _| 0.5 + 0.25 * i as f64);
+                if mrhs {
+                    let ym = DMatrix::from_fn(n, 2, |i, j| (y[i] * (1.0 + j as f64) + 0.1 * j as f64) * scale);
+                    let mut b = LevMarProblemBuilder::mrhs(model).observations(ym);
+                    if weighted {
+                        b = b.weights(w);
+                    }
+                    let pr = b.build().ok()?;
+                    Some((pr.linear_coefficients()?.into_owned(), pr.residuals()?, pr.jacobian()?))
+                } else {
+                    let mut b = LevMarProblemBuilder::new(model).observations(y.map(|v| v * scale));
+                    if weighted {
+                        b = b.weights(w);
+                    }
+                    let pr = b.build().ok()?;
+                    let c = pr.linear_coefficients()?;
+                    Some((DMatrix::from_iterator(c.nrows(), c.ncols(), c.iter().cloned()), pr.residuals()?, pr.jacobian()?))
+                }
+            };
+            let Some((c1, r1, j1)) = run(1.0) else {
+                out.fact("C01.native.state_present", false, "no state at scale 1".into());
+                continue;
+            };
+            for e in [-540i32, -300, 300, 500] {
+                let s = 2f64.powi(e);
+                let tag = format!("y scaled by 2^{e}, mrhs={mrhs}, weights={weighted}");
+                let Some((c2, r2, j2)) = run(s) else {
+                    out.fact("C01.native.homogeneous_in_y", false, format!("{tag}: no coefficients/residuals/Jacobian"));
+                    continue;
+                };
+                let close = |a: f64, b: f64| (a * s - b).abs() <= 1e-9 * (a * s).abs().max(f64::MIN_POSITIVE * 1e6);
+                let okc = c1.iter().zip(c2.iter()).all(|(a, b)| close(*a, *b));
+                let okr = r1.iter().zip(r2.iter()).all(|(a, b)| close(*a, *b));
+                let okj = j1.iter().zip(j2.iter()).all(|(a, b)| close(*a, *b));
+                out.fact("C01.native.homogeneous_in_y", okc, format!("{tag}: coefficients are not 2^{e} times the unscaled ones: {:?} vs {:?}", c2.iter().take(3).collect::<Vec<_>>(), c1.iter().take(3).collect::<Vec<_>>()));
+                out.fact("C02.native.homogeneous_in_y", okr, format!("{tag}: residuals are not 2^{e} times the unscaled ones"));
+                out.fact("C03.native.homogeneous_in_y", okj, format!("{tag}: the Jacobian is not 2^{e} times the unscaled one: {:?} vs {:?}", j2.iter().take(3).collect::<Vec<_>>(), j1.iter().take(3).map(|v| v * s).collect::<Vec<_>>()));
+            }
+        }
+    }
+}
+
 /// builder decision table on concrete sizes (native replay / path validation for Engine M, C18)
 pub fn buildcase(cfg: &Cfg, out: &mut Out<f64>) {
     let (have_y, x, rows, cols) = (cfg.usize("have_y", 1) == 1, cfg.usize("x", 3), cfg.usize("rows", 3), cfg.usize("cols", 1));
@@ -666,5 +719,58 @@ pub fn statsfit(_cfg: &Cfg, out: &mut Out<f64>) {
                 let _ = fr;
             }
         }
+    }
+    // a perfect fit: constant data, one basis function exp(a x) started at a = 0 (the weighted residuals are exactly zero and
+    // the optimizer stops with ResidualsZero): reduced chi^2 = 0 / (N-M-P) = 0 and the standard error is 0, both finite
+    for weighted in [false, true] {
+        let n = 8usize;
+        let x = DVector::from_fn(n, |i, _| 0.25 * i as f64);
+        let y = DVector::from_element(n, 2.0);
+        let model = OneExp { x, a: 0.0 };
+        let mut b = LevMarProblemBuilder::new(model).observations(y);
+        if weighted {
+            b = b.weights(DVector::from_element(n, 0.5));
+        }
+        let Ok(problem) = b.build() else { continue };
+        if let Ok((fr, st)) = LevMarSolver::default().fit_with_statistics(problem) {
+            let r = st.weighted_residuals();
+            let want = r.norm_squared() / (n - 2) as f64;
+            let tag = format!("perfect fit (termination {:?}, weights={weighted})", fr.minimization_report.termination);
+            out.fact("C12.native.reduced_chi2", st.reduced_chi2() == want || (st.reduced_chi2() - want).abs() <= 1e-9 * want.abs(), format!("{tag}: reduced chi2 {} but ||r||^2/(N-M-P) = {want}", st.reduced_chi2()));
+            let rse = st.regression_standard_error();
+            out.fact("C12.native.regression_standard_error", rse == want.sqrt() || (rse - want.sqrt()).abs() <= 1e-9 * want.sqrt(), format!("{tag}: standard error {rse} but sqrt(reduced chi2) = {}", want.sqrt()));
+        }
+    }
+}
+
+/// one basis function exp(a x): a single nonlinear parameter, a single coefficient
+pub struct OneExp {
+    pub x: DVector<f64>,
+    pub a: f64,
+}
+impl SeparableNonlinearModel for OneExp {
+    type ScalarType = f64;
+    type Error = E;
+    fn parameter_count(&self) -> usize {
+        1
+    }
+    fn base_function_count(&self) -> usize {
+        1
+    }
+    fn output_len(&self) -> usize {
+        self.x.len()
+    }
+    fn set_params(&mut self, p: OVector<f64, Dyn>) -> Result<(), E> {
+        self.a = p[0];
+        Ok(())
+    }
+    fn params(&self) -> OVector<f64, Dyn> {
+        DVector::from_vec(vec![self.a])
+    }
+    fn eval(&self) -> Result<OMatrix<f64, Dyn, Dyn>, E> {
+        Ok(DMatrix::from_fn(self.x.len(), 1, |i, _| (self.a * self.x[i]).exp()))
+    }
+    fn eval_partial_deriv(&self, _k: usize) -> Result<OMatrix<f64, Dyn, Dyn>, E> {
+        Ok(DMatrix::from_fn(self.x.len(), 1, |i, _| self.x[i] * (self.a * self.x[i]).exp()))
     }
 }
